@@ -159,34 +159,39 @@ def _impl_vname(case):
         return _classify(e)
 
 def _impl_verify_path(case):
+    """_verify_path is probed on the NetworkGraph in the state in which the code itself calls it: nodes added, first edge
+    about to be added (NetworkGraph.__init__ -> add_edge -> _verify_path)."""
     import pyrates.ir.circuit as ic
     m = [x for x in pool() if x["name"] == case["model"]][0]
-    captured = []
-    orig = ic.NetworkGraph.__init__
+    state = {}
+    orig = ic.NetworkGraph.add_edge
+    def probe(net):
+        desc = []
+        for n in net.nodes:
+            ops = []
+            for o, data in net[n].op_graph.nodes(data=True):
+                vs = data["variables"] if "variables" in data else data["operator"].variables
+                ops.append([str(o), [str(v) for v in vs]])
+            desc.append([str(n), ops])
+        attrs = sorted({k for k in case["path"] if hasattr(net, k)})
+        try:
+            net._verify_path(*case["parts"])
+            res = dict(r="ok")
+        except Exception as e:
+            res = _classify(e)
+        res.update(net=desc, attrs=attrs)
+        return res
     def spy(self, *a, **k):
-        orig(self, *a, **k)
-        captured.append(self)
-    ic.NetworkGraph.__init__ = spy
+        if "res" not in state:
+            state["res"] = probe(self)
+        return orig(self, *a, **k)
+    ic.NetworkGraph.add_edge = spy
     try:
         c = _build(m)
         c.get_run_func("f", 0.125, backend="default", vectorize=False, verbose=False, clear=False)
     finally:
-        ic.NetworkGraph.__init__ = orig
-    net = captured[0]
-    desc = []
-    for n in net.nodes:
-        ops = []
-        for o, data in net[n].op_graph.nodes(data=True):
-            ops.append([str(o), [str(v) for v in data["operator"].variables]])
-        desc.append([str(n), ops])
-    attrs = sorted({k for k in case["path"] if hasattr(net, k)})
-    try:
-        net._verify_path(*case["parts"])
-        res = dict(r="ok")
-    except Exception as e:
-        res = _classify(e)
-    res.update(net=desc, attrs=attrs)
-    return res
+        ic.NetworkGraph.add_edge = orig
+    return state["res"]
 
 def _impl_node_apply(case):
     m = [x for x in pool() if x["name"] == case["model"]][0]
@@ -479,11 +484,15 @@ def run_groups(ctx, groups):
     tot = sum(groups[g][1] for g in names) or 1.0
     alloc = {g: max(1, int(round(jobs * groups[g][1] / tot))) for g in names}
     def one(g):
+        t0 = time.time()
         sub = copy.copy(ctx)
         sub.scratch = os.path.join(ctx.scratch, "grp_" + g)
         os.makedirs(sub.scratch, exist_ok=True)
         cases = groups[g][0]
-        return g, run_impl(sub, "c20", "impl", cases, nworkers=min(alloc[g], len(cases)), per_case_timeout=120)
+        r = run_impl(sub, "c20", "impl", cases, nworkers=min(alloc[g], len(cases)), per_case_timeout=120)
+        if len(cases) > 1:
+            ctx.note(f"group {g}: {len(cases)} cases, {min(alloc[g], len(cases))} workers, {time.time() - t0:.0f}s")
+        return g, r
     with ThreadPoolExecutor(max_workers=len(names) or 1) as ex:
         return dict(ex.map(one, names))
 
@@ -535,10 +544,20 @@ def check(ctx):
         cases = (load_corpus("C20") + inproc + fortran + muts + vname_cases(ctx.rng, 150 if quick else 1500)
                  + verify_path_cases(ctx.rng, 12 if quick else 80) + node_apply_cases(ctx.rng, 4 if quick else 20)
                  + opgraph_cases(ctx.rng, 60 if quick else 600))
+    only = os.environ.get("VERIF_C20_GROUPS")     # development aid: restrict the run to some groups (default,torch,jax,fortran,front)
+    if only and not ctx.replay:
+        keep = set(only.split(","))
+        cases = [c for c in cases if (c["be"] if c["t"] == "config" else "front") in keep]
+        ctx.note(f"RESTRICTED RUN (VERIF_C20_GROUPS={only}): not a full check")
+    t_run = time.time()
     outs = run_cases(ctx, cases)
+    t_run = time.time() - t_run
     crashed = [i for i, r in enumerate(outs) if "r" not in r]
     good = [i for i in range(len(cases)) if i not in crashed]
+    t_coq = time.time()
     cmp_ = model_compare(ctx, [cases[i] for i in good], [outs[i] for i in good], "main")
+    t_coq = time.time() - t_coq
+    ctx.note(f"real-code runs {t_run:.0f}s, evaluation of the model in Coq {t_coq:.0f}s")
     back = lambda l: [good[i] for i in l]
     badI, badS, malformed, notwf = back(cmp_["badI"]), back(cmp_["badS"]), back(cmp_["malformed"]), back(cmp_["notwf"])
     assert not notwf, f"generator produced a network with duplicate keys: {[summarize(cases[i]) for i in notwf[:3]]}"
@@ -564,7 +583,7 @@ def check(ctx):
         c = f["witness"]
         r = run_cases(ctx, [c])[0]
         if "r" not in r:
-            return True
+            raise RuntimeError(f"witness run crashed: {r}")
         return bool(model_compare(ctx, [c], [r], "wit_" + f["id"].replace("-", "_"))["badS"])
 
     conclude(ctx, cases=cases, impl_out=outs, bad_spec=badS, bad_impl=badI, crashed=crashed, problem=problem,
